@@ -184,19 +184,25 @@ def report(prop, tier, seed, level, coverage, violations, t0, *, assumptions=(),
                        'message': vs[0][1]})
             continue
         v = vs[0]
+        reproduced = None
         if recheck is not None:
             again = recheck(v[2])
             keys2 = {x[0] for x in again.get('v', ())}
-            if key not in keys2:
-                sys.stderr.write(f'NONDETERMINISTIC: violation {key} did not reproduce '
-                                 f'on case {v[2]!r} (got {sorted(keys2)})\n')
-                sys.exit(HARNESS_ERROR)
+            reproduced = key in keys2
+            if not reproduced:
+                # observed in a long-lived worker process but not when the single case is run in fresh
+                # state: the wrong result depends on what the process did before (e.g. module-level
+                # state in the library). It is still a wrong result of the real code, so it is reported.
+                print(f'NOTE property={prop} key={key}: the violation was observed in a worker process but did '
+                      f'not reproduce when the case was re-run alone in fresh state (got {sorted(keys2)}); '
+                      f'the result depends on process history')
         d = VERIF / 'replays' / prop
         d.mkdir(parents=True, exist_ok=True)
         path = d / f'{digest([key, v[2]])}.json'
         path.write_text(json.dumps(
             {'property': prop, 'key': key, 'message': v[1], 'case': v[2],
-             'detail': v[3], 'count_same_key': counts.get(key)},
+             'detail': v[3], 'count_same_key': counts.get(key),
+             'reproduced_alone_in_fresh_state': reproduced},
             indent=1, default=repr, ensure_ascii=False))
         print(f'VIOLATION property={prop} replay={path}')
         print(f'  key={key} count={counts.get(key)} :: {v[1]}')
